@@ -670,7 +670,7 @@ theorem subset_sound (c : Cache) (hex : ∀ ix ∈ c.ixs, IxExact (ValAt c.rows 
       exact (icOk_of_condTrue row u cnd ic hti (hall cnd hcnd)).2
     have hval : idxVal ix.spec (probeRow z cs) = idxVal ix.spec row := by
       unfold idxVal
-      apply filterMap_congr'
+      apply List.map_congr_left
       intro ck hck
       have hmem : (ck.col, ck.key) ∈ condColumnKeys cs :=
         hspec_in_cs (ck.col, ck.key) (by simp only [specColumnKeys, List.mem_map]; exact ⟨ck, hck, rfl⟩)
